@@ -288,6 +288,19 @@ func genStream(r *RNG, directed bool) (ni int, G int, n int, steps []streamStep)
 func runStreamAPI(c *Ctx, idx int, directed bool) error {
 	r := c.rng.Fork()
 	ni, G, n, steps := genStream(r, directed)
+	mode := "stream-api"
+	if directed {
+		mode = "stream-api-directed"
+	}
+	return runStreamAPIWith(c, r, idx, mode, ni, G, n, steps, true)
+}
+
+// runStreamAPIWith: one session through circuit.NewStreaming / Streaming.Garble over the given
+// steps: oracle (slot pairs, byte scan) and the correspondence cases (kind 1: the symbolic model's
+// R-pairs, only when symbolic is set - it is quadratic in the number of slots; kind 2: the concrete
+// model's byte-exact rows).
+func runStreamAPIWith(c *Ctx, r *RNG, idx int, mode string, ni, G, n int, steps []streamStep, symbolic bool) error {
+	directed := mode == "stream-api-directed"
 	key := r.Bytes(32)
 	rd := &blockLog{r: r.Fork()}
 	q := newFragQueue(r.Fork(), 0)
@@ -301,8 +314,8 @@ func runStreamAPI(c *Ctx, idx int, directed bool) error {
 	if err != nil {
 		return err
 	}
-	for _, s := range steps {
-		if _, _, err := stream.Garble(s.circ, s.in, s.out); err != nil {
+	for k, s := range steps {
+		if err := streamingGarble(stream, k, s.circ, s.in, s.out); err != nil {
 			return fmt.Errorf("Streaming.Garble: %v", err)
 		}
 	}
@@ -347,10 +360,6 @@ func runStreamAPI(c *Ctx, idx int, directed bool) error {
 	}
 	pairs := slotPairs(slots, R)
 	self, bp := scanR(data, R)
-	mode := "stream-api"
-	if directed {
-		mode = "stream-api-directed"
-	}
 	c.Hist("mode:" + mode)
 	c.Eval(fmt.Sprintf("%s|%d|%x", mode, idx, key), true)
 	if len(pairs) > 0 || len(self) > 0 || len(bp) > 0 {
@@ -358,7 +367,9 @@ func runStreamAPI(c *Ctx, idx int, directed bool) error {
 			c04Replay{Seed: c.Seed, Mode: mode, Case: idx, R: R.String(), Offsets: append(pairs, bp...), Self: self,
 				Detail: fmt.Sprintf("%d streamed circuits, %d slots", len(steps), len(slots))})
 	}
-	c.Case(L(I(1), I(G), I(ni), I(n), stepsSX(steps), Bits(x), Bits(perm)), pairsSX(len(slots), pairs))
+	if symbolic {
+		c.Case(L(I(1), I(G), I(ni), I(n), stepsSX(steps), Bits(x), Bits(perm)), pairsSX(len(slots), pairs))
+	}
 	c.Case(L(I(2), Bytes(key), I(G), I(ni), I(n), stepsSX(steps), Labels(rd.blocks)), L(Label(R), L(rowsSX...)))
 	if directed && len(c.samples) < 3 {
 		c.Sample(map[string]interface{}{"mode": mode, "steps": len(steps), "slots": len(slots), "pairs_R_apart": len(pairs)})
@@ -702,6 +713,9 @@ func runC04(c *Ctx) error {
 		if err := runStreamSession(c, i); err != nil {
 			return err
 		}
+	}
+	if err := runC04Long(c); err != nil {
+		return err
 	}
 	if err := runC04Doors(c); err != nil {
 		return err
